@@ -2,6 +2,7 @@
    Statements only; proofs are `exact <lemma>`. *)
 From Coq Require Import Sorted.
 From Cty Require Import Base Ty BigFloat Value Hash Ops Refine SetAlg SetAlgProofs EqProofs.
+From Cty Require Import Json JsonRoundTrip RawRefl RawEq EqualsRefl.
 Open Scope Z_scope.
 
 (* number equality (integer value, or shortest decimal text) is an equivalence on all numbers *)
@@ -99,3 +100,60 @@ Print Assumptions C03_model_string_sets.
 Print Assumptions C03_string_hash_coherent.
 Print Assumptions C03_number_hash_refuted.
 Print Assumptions C03_trichotomy_refuted.
+
+(* ---- raw equality at every depth ---- *)
+(* on the structural fragment [RT] (booleans, strings, nulls, unrefined unknowns, lists, tuples, maps and objects,
+   nested arbitrarily; the type well-formed): RawEquals, through its public entry point with its own fuel, answers
+   true exactly when the two values are the same value *)
+Theorem C03_raw_equals_iff : forall norm unk t p q, RT norm unk t p -> RT norm unk t q -> wf_ty t = true ->
+  (raw_equals (V t p) (V t q) = Ok true <-> p = q).
+Proof. exact raw_equals_iff. Qed.
+Print Assumptions C03_raw_equals_iff.
+(* hence it is reflexive, symmetric and transitive there, and equal values have the same hash *)
+Theorem C03_raw_equals_refl : forall norm unk t p, RT norm unk t p -> wf_ty t = true -> raw_equals (V t p) (V t p) = Ok true.
+Proof. exact raw_equals_refl. Qed.
+Print Assumptions C03_raw_equals_refl.
+Theorem C03_raw_equals_sym : forall norm unk t p q, RT norm unk t p -> RT norm unk t q -> wf_ty t = true ->
+  raw_equals (V t p) (V t q) = Ok true -> raw_equals (V t q) (V t p) = Ok true.
+Proof. exact raw_equals_sym. Qed.
+Print Assumptions C03_raw_equals_sym.
+Theorem C03_raw_equals_trans : forall norm unk t p q r, RT norm unk t p -> RT norm unk t q -> RT norm unk t r -> wf_ty t = true ->
+  raw_equals (V t p) (V t q) = Ok true -> raw_equals (V t q) (V t r) = Ok true -> raw_equals (V t p) (V t r) = Ok true.
+Proof. exact raw_equals_trans. Qed.
+Print Assumptions C03_raw_equals_trans.
+Theorem C03_raw_equal_same_hash : forall norm unk t p q, RT norm unk t p -> RT norm unk t q -> wf_ty t = true ->
+  raw_equals (V t p) (V t q) = Ok true -> hash_value (V t p) = hash_value (V t q).
+Proof. exact raw_equal_same_hash. Qed.
+Print Assumptions C03_raw_equal_same_hash.
+(* the same for any fuel: whenever the fuelled comparison answers true the values are identical, and with fuel
+   above the nesting depth it answers true on identical values *)
+Theorem C03_raw_true_eq_any_fuel : forall norm unk n t p q, RT norm unk t p -> RT norm unk t q -> wf_ty t = true ->
+  (pdepth p <= n)%nat -> forall f, h_raw (hfns_at f) (V t p) (V t q) = Ok true -> p = q.
+Proof. exact raw_true_eq_at. Qed.
+Print Assumptions C03_raw_true_eq_any_fuel.
+(* non-vacuity: two nested values of one type that differ in one leaf at depth three are told apart, and each
+   equals itself *)
+Example C03_raw_nonvacuous :
+  let t := TObj [([97%N], TList (TTuple [TStr; TBool])); ([98%N], TMap TStr)] [] in
+  let p := PMap [([97%N], PSeq [PSeq [PStr [120%N]; PBool true]; PNull]); ([98%N], PMap [([107%N], PStr []); ([108%N], PNull)])] in
+  let q := PMap [([97%N], PSeq [PSeq [PStr [120%N]; PBool false]; PNull]); ([98%N], PMap [([107%N], PStr []); ([108%N], PNull)])] in
+  RT (fun s => s) false t p /\ RT (fun s => s) false t q /\ wf_ty t = true /\
+  raw_equals (V t p) (V t p) = Ok true /\ raw_equals (V t p) (V t q) = Ok false.
+Proof.
+  cbv zeta. split; [|split; [|split; [reflexivity|split; vm_compute; reflexivity]]].
+  - apply RT_obj; [reflexivity|intros; reflexivity|]. repeat constructor; cbn; auto; try (intros; reflexivity).
+  - apply RT_obj; [reflexivity|intros; reflexivity|]. repeat constructor; cbn; auto; try (intros; reflexivity).
+Qed.
+
+(* ---- the equality operation at every depth ---- *)
+(* a wholly known value of the structural fragment (nulls nested anywhere included) compared with itself answers
+   True, through the public entry point with its own fuel, and the answer is the same for every visiting order of
+   map keys and attribute names (Go map iteration) that yields existing keys: on identical operands Equals agrees
+   with RawEquals *)
+Theorem C03_equals_refl : forall norm t p, RT norm false t p -> wf_ty t = true -> equals_v (V t p) (V t p) = Ok v_true.
+Proof. exact equals_v_refl. Qed.
+Print Assumptions C03_equals_refl.
+Theorem C03_equals_refl_any_order : forall norm order t p, (forall l k, In k (order l) -> In k l) ->
+  RT norm false t p -> wf_ty t = true -> equals_ord order (V t p) (V t p) = Ok v_true.
+Proof. exact equals_ord_refl. Qed.
+Print Assumptions C03_equals_refl_any_order.
